@@ -406,7 +406,21 @@ var goKeywords = map[string]bool{"type": true, "func": true, "value": true, "var
 	"multiple": true, "value.": true, "context": true, "assign": true, "index": true, "slice": true, "range": true, "over": true, "mismatch": true, "values": true, "but": true, "returns": true}
 
 // NormMsg abstracts identifiers that are not part of the compiler's own vocabulary.
+var structBodyRe = regexp.MustCompile(`struct\{[^{}]*\}`)
+var tagStrRe = regexp.MustCompile("`[^`]*`|\"(?:[^\"\\\\]|\\\\.)*\"")
+
 func NormMsg(msg string) string {
+	msg = tagStrRe.ReplaceAllString(msg, "S")
+	for i := 0; i < 6; i++ {
+		n := structBodyRe.ReplaceAllString(msg, "STRUCT")
+		if n == msg {
+			break
+		}
+		msg = n
+	}
+	if len(msg) > 400 {
+		msg = msg[:400]
+	}
 	msg = numRe.ReplaceAllString(msg, "N")
 	return identRe.ReplaceAllStringFunc(msg, func(id string) string {
 		if goKeywords[strings.ToLower(id)] || id == "N" {
